@@ -132,6 +132,52 @@ def yaml_of(fs, scope, libname):
     return y
 
 
+def rank_generic_scopes():
+    """Scopes with a fortran_generic entry that turns a scalar argument into an array (docs/fortran.rst "Scalar and
+    Array Arguments"), alone, inside an overload set, with a default argument, with explicit suffixes.
+    -> list of (declarations, names)"""
+    out = []
+    for gsfx in (None, ("_scalar", "_array")):
+        gens = [{"decl": "(int *a1)"}, {"decl": "(int *a1 +rank(1))"}]
+        if gsfx:
+            gens[0]["function_suffix"], gens[1]["function_suffix"] = gsfx
+        a = {"decl": "void alpha(int *a1 +intent(in), int n)", "fortran_generic": gens}
+        b = {"decl": "void alpha(double *a1 +intent(in), int n)"}
+        d = {"decl": "void alpha(int *a1 +intent(in), int n = 1)", "fortran_generic": gens}
+        x = dict(a, format={"function_suffix": "_x"})
+        other = {"decl": "void Beta(int a1)"}
+        for decls in ([a], [a, b], [b, a], [b, a, {"decl": "void alpha(long *a1 +intent(in), int n)"}], [d], [d, other], [x],
+                      [x, dict(b, format={"function_suffix": "_y"})], [other, a, {"decl": "void Beta(double a1)"}]):
+            out.append(([dict(e) for e in decls], sorted({e["decl"].split("(")[0].split()[-1] for e in decls})))
+    return out
+
+
+def one_rank(job):
+    decls, names, scope, idx, base = job
+    libname = "rlib%d" % idx
+    import yaml
+
+    d = os.path.join(base, libname)
+    os.makedirs(d)
+    y = {"library": libname, "cxx_header": libname + ".hpp",
+         "options": {"debug": True, "F_force_wrapper": True, "wrap_python": False, "wrap_lua": False}}
+    y["declarations"] = [{"decl": "namespace outer", "declarations": decls}] if scope == "ns" else decls
+    yp = os.path.join(d, libname + ".yaml")
+    with open(yp, "w") as f:
+        yaml.safe_dump(y, f, default_flow_style=False, sort_keys=False)
+    out = os.path.join(d, "out")
+    os.makedirs(out)
+    rc, so, se = shroudrun.run(["--outdir", out, "--logdir", out, yp])
+    fs = [F(n, ("int",)) for n in names]
+    if rc != 0:
+        return {"funcs": fs, "scope": scope, "error": se[-800:], "yaml": y}
+    t = build_trace(fs, scope, libname, out)
+    t["scope"] = scope
+    t["relaxed"] = True
+    t["yaml"] = y
+    return t
+
+
 def join_cont(lines, cont):
     out, cur = [], ""
     for l in lines:
@@ -307,8 +353,10 @@ def run(tier):
         with common.scratch("c08-") as base:
             for i, fs in enumerate(scopes):
                 jobs.append((fs, "ns" if i % 3 == 2 else "lib", i, base))
+            rjobs = [(decls, names, "ns" if k % 2 else "lib", 100000 + k, base) for k, (decls, names) in enumerate(rank_generic_scopes())]
             with cf.ThreadPoolExecutor(common.NCPU) as ex:
                 results = list(ex.map(one, jobs))
+                results += list(ex.map(one_rank, rjobs))
         traces = []
         for t in results:
             if "error" in t:
@@ -327,7 +375,7 @@ def run(tier):
                 k["frows"] = k["frows"][:-1]
                 controls.append(k)
         keep = ("funcs", "crows", "frows", "generics", "py", "lua", "cprefix", "fprefix")
-        verdicts, st = validate_traces("Trace_Naming", "Trace_Naming", [{k: t[k] for k in keep} for t in traces + controls],
+        verdicts, st = validate_traces("Trace_Naming", "Trace_Naming", [dict({k: t[k] for k in keep}, relaxed=bool(t.get("relaxed"))) for t in traces + controls],
                                        shard=1000)
         c.add_stats(st, "trace_validation", len(traces))
         cnt = {}
